@@ -2,6 +2,7 @@ package main
 
 import (
 	"fmt"
+	"go/ast"
 	"go/token"
 	"go/types"
 	"sort"
@@ -902,6 +903,119 @@ func (ra *relAn) useExcluded(fn *ssa.Function, call ssa.CallInstruction, v ssa.V
 		}
 	}
 	return n > 0
+}
+
+// R18.4: recycle gates. A channel / call object of mpx and rpc shares its pooled state between the user's goroutine,
+// the connection loops and helper goroutines by a reference count (field refs). The state may go back to its pool
+// only at the moment the count is observed to reach zero: every call that releases a state held by such an object
+// must be dominated by that observation - refs.Release() == true, or refs.Add(-1) <= 0 - in the function itself
+// or, for an unexported helper (free()), at every one of its call sites. A direct call of the helper (defer
+// ch1.free() instead of ch1.Free()) resets and recycles a state that other holders are still using.
+func init() {
+	register(&Rule{ID: "R18.4", Props: []string{"C18", "C04", "C06"}, Floor: 3,
+		Doc: "recycle gates: in objects that carry a reference count, the pooled state is released only behind the observation that the count reached zero (in the releasing function or at all call sites of an unexported releasing helper)",
+		Run: runR18_4})
+}
+
+func runR18_4(c *Ctx, r *R) {
+	ra := &relAn{c: c, stores: map[*ssa.Function]map[*types.Var]bool{}, preds: map[*ssa.Function]*predSum{}}
+	for _, rel := range analysedPkgs {
+		ra.funcs = append(ra.funcs, c.SrcFuncs(rel)...)
+	}
+	ra.summarise()
+	hasRefs := func(fn *ssa.Function) bool {
+		if fn.Signature.Recv() == nil {
+			return false
+		}
+		st, _ := structOf(fn.Signature.Recv().Type())
+		if st == nil {
+			return false
+		}
+		for i := 0; i < st.NumFields(); i++ {
+			if st.Field(i).Name() == "refs" {
+				return true
+			}
+		}
+		return false
+	}
+	// gateAt: the count was observed to reach zero on every path to instruction at
+	gateAt := func(at ssa.Instruction) bool {
+		for _, cd := range pathConds(at.Block()) {
+			if call, ok := cd.V.(*ssa.Call); ok && cd.Truth && calleeLabel(call) == "refs.Release" {
+				return true
+			}
+			for _, rel := range relsOf(cd) {
+				x, y, op := rel.X, rel.Y, rel.Op
+				if _, isK := x.(*ssa.Const); isK {
+					x, y, op = y, x, swapOp(op)
+				}
+				if call, ok := x.(*ssa.Call); ok && calleeLabel(call) == "refs.Add" {
+					if k, isK := constInt(y); isK && ((op == token.LEQ && k <= 0) || (op == token.LSS && k <= 1) || (op == token.EQL && k == 0)) {
+						return true
+					}
+				}
+			}
+		}
+		return false
+	}
+	var gated func(fn *ssa.Function, at ssa.Instruction, depth int) (bool, string)
+	gated = func(fn *ssa.Function, at ssa.Instruction, depth int) (bool, string) {
+		if gateAt(at) {
+			return true, ""
+		}
+		if depth >= 3 || ast.IsExported(fn.Name()) {
+			return false, fnKey(fn)
+		}
+		n := 0
+		for _, g := range c.SrcFuncs(relPkg(fn.Pkg.Pkg.Path())) {
+			bad := ""
+			withAnon(g, func(h *ssa.Function) {
+				for _, call := range callsIn(h, false) {
+					if call.Common().StaticCallee() != fn {
+						continue
+					}
+					n++
+					if ok, where := gated(h, call.(ssa.Instruction), depth+1); !ok {
+						bad = where + " (" + c.pos(call.Pos()) + ")"
+					}
+				}
+			})
+			if bad != "" {
+				return false, bad
+			}
+		}
+		return n > 0, fnKey(fn)
+	}
+	n := 0
+	for _, rel := range []string{"mpx", "rpc"} {
+		for _, fn := range c.SrcFuncs(rel) {
+			if fn.Parent() != nil || !hasRefs(fn) {
+				continue
+			}
+			k := 0
+			for _, call := range callsIn(fn, false) {
+				cal := call.Common().StaticCallee()
+				if cal == nil || len(ra.mayRel[cal]) == 0 || isPoolPut(call.Common()) {
+					continue
+				}
+				// a releaser of a STATE (not of the receiver object itself)
+				if len(call.Common().Args) > 0 && call.Common().Args[0] == ssa.Value(fn.Params[0]) {
+					continue
+				}
+				k++
+				n++
+				key := fmt.Sprintf("%s/%s#%d/gate", fnKey(fn), cal.Name(), k)
+				if ok, where := gated(fn, call.(ssa.Instruction), 0); ok {
+					r.OK(key, call.Pos(), "the state is recycled only where the reference count was observed to reach zero")
+				} else {
+					r.Bad(key, call.Pos(), "the pooled state is released through %s without the reference count having been observed at zero on that path: other holders (helper goroutines of the handler, the connection loops) still use a state that is reset and handed to the next call", where)
+				}
+			}
+		}
+	}
+	if n == 0 {
+		r.Unk("mpx+rpc/recycle-gates", 0, "anchor lost: no state release in a reference-counted object found")
+	}
 }
 
 // overwrittenBetween: a store to the field that ld loads lies on every path from the release call to ld
